@@ -684,6 +684,7 @@ type Replayer struct {
 	ws    *Workspace
 	ld    *Loaded
 	mu    sync.Mutex
+	kept  map[string]int    // replay file -> number of reproducing counterexamples stored under that base name
 	bins  map[string]string // pkg dir -> test binary
 	built map[string]error
 }
@@ -771,6 +772,15 @@ func (rp *Replayer) Replay(hs *HarnessSpec, ob *Obligation, all []*HarnessSpec, 
 	os.MkdirAll(outDir, 0755)
 	safe := regexp.MustCompile(`[^A-Za-z0-9_.-]+`).ReplaceAllString(ob.Label, "_")
 	file := filepath.Join(outDir, hs.Name+"."+safe+".json")
+	rp.mu.Lock()
+	if rp.kept == nil {
+		rp.kept = map[string]int{}
+	}
+	if n := rp.kept[file]; n > 0 {
+		// a reproducing counterexample with this name is already on disk: keep it, number this one
+		file = filepath.Join(outDir, fmt.Sprintf("%s.%s.%d.json", hs.Name, safe, n+1))
+	}
+	rp.mu.Unlock()
 	rf := map[string]interface{}{"harness": hs.Name, "label": ob.Label, "symbols": modelToSymbols(ob), "known": known, "tier": tier,
 		"site": ob.Site, "pkg": hs.PkgDir}
 	b, _ := json.MarshalIndent(rf, "", " ")
@@ -813,6 +823,12 @@ func (rp *Replayer) Replay(hs *HarnessSpec, ob *Obligation, all []*HarnessSpec, 
 		if !ro.Reproduced {
 			ro.Why = "no native panic for the model values"
 		}
+	}
+	if ro.Reproduced {
+		base := filepath.Join(outDir, hs.Name+"."+safe+".json")
+		rp.mu.Lock()
+		rp.kept[base]++
+		rp.mu.Unlock()
 	}
 	return ro
 }
